@@ -36,7 +36,9 @@ Targets(code, o, path) ==
       Cat(k) == IF k > Len(code) THEN <<>> ELSE InstrTargets(code[k], o, path) \o Cat(k + 1)
   IN  <<Act("setattr", path, "byte_size", "")>> \o Cat(1)
 \* actions that do not address a field of the instance at all
-Others == <<Act("serialize", <<>>, "", ""), Act("other", <<>>, "", "longer"), Act("other", <<>>, "", "shorter"), Act("other", <<>>, "", "construct")>>
+\* (clobber_source: the caller overwrites the buffer a deserialized instance was read from - the instance holds values, not views)
+Others == <<Act("serialize", <<>>, "", ""), Act("other", <<>>, "", "longer"), Act("other", <<>>, "", "shorter"), Act("other", <<>>, "", "construct"),
+            Act("other", <<>>, "", "clobber_source")>>
 
 \* outcome of an action on an instance: the instance itself is never different afterwards
 Outcome(a) == CASE a.op = "setattr" -> "AttributeError"
